@@ -37,7 +37,10 @@ RULE = ("(a) call-site cross-check: sampler runs (clustering on/off, both kernel
         "state right after load equals the state the writer had when it saved, the resumed run's event log (one restore, then "
         "the iterations) and absolute stream positions equal the model's (`c09.run resume=at:k`), it is bit-identical to the "
         "uninterrupted run and independent of ambient stream and constructor seed; a checkpoint without stored position "
-        "continues the ambient stream. "
+        "continues the ambient stream; every way a file without stored position can arise (key removed, rng_state=None, "
+        "StateManager.save_state format, checkpoints written while the sampler cannot be pickled — none on a tree that refuses to "
+        "write them) goes through the property oracle: after load_state the stream still depends on the ambient seed, no batch "
+        "of the resumed run is a bit-copy of an earlier one, the resumed run depends on the ambient stream. "
         "(i) call-graph: call edges observed with sys.setprofile on real runs must be in the static graph of G3b. "
         "(j) pool: a pool with an order-preserving map gives the serial fingerprint.")
 MODELLED = ["MT19937 is an abstract generator: any family of deterministic state transformers `next k` (one per request kind) and a "
@@ -689,6 +692,130 @@ def rerun_violations(configs):
     return bad
 
 
+class _Unpicklable:
+    """stands for an open handle / a captured stream: refuses to be pickled"""
+
+    def __reduce_ex__(self, protocol):
+        raise TypeError("cannot pickle '_Unpicklable' instances")
+
+
+class _HandleLikelihood:
+    """a likelihood OBJECT holding an unpicklable attribute (same values as the plain test likelihood)"""
+
+    def __init__(self):
+        self.handle = _Unpicklable()
+
+    def __call__(self, x):
+        return -0.5 * float(np.sum((x - 0.3) ** 2)) * 2.0
+
+
+class _CapturedStream(io.StringIO):
+    """a text stream that refuses to be pickled (pytest capture, notebook OutStream)"""
+
+    def __reduce_ex__(self, protocol):
+        raise TypeError("cannot pickle '_CapturedStream' instances")
+
+
+def _positionless_files(cfg, d):
+    """every way a checkpoint file WITHOUT a stored stream position can reach load_state / resume_state_path:
+    (tag, path, sampler factory).  All derive from the first checkpoint of a seeded run (still in warm-up, where a replay of the
+    stream shows as a bit-copy of the first batch).  A route the library refuses (it raises while writing) yields no file."""
+    import dill
+    out = []
+    s0, log0, obs0, cks = _writer(cfg, d)
+    k = min(cks)
+    with open(cks[k], "rb") as fh:
+        dd = dill.load(fh)
+    for tag, edit in (("rng_state key removed (file written before the position was recorded)", lambda x: x.pop("rng_state", None)),
+                      ("rng_state = None", lambda x: x.__setitem__("rng_state", None))):
+        d2 = dict(dd)
+        edit(d2)
+        p = os.path.join(d, f"pl_{len(out)}.state")
+        with open(p, "wb") as fh:
+            dill.dump(d2, fh)
+        out.append((tag, p, lambda: _mk(cfg)))
+    # StateManager's own (state-only) file format
+    carrier = _mk(cfg)
+    ob.run_quiet(lambda: carrier.load_state(cks[k]))
+    p = os.path.join(d, "pl_statemanager.state")
+    ob.run_quiet(lambda: carrier.state.save_state(p))
+    out.append(("file written by sampler.state.save_state (state-only format)", p, lambda: _mk(cfg)))
+    # checkpoints written by run(save_every=1) while the sampler object cannot be pickled
+    if cfg[3] == "plain" and not cfg[0]:
+        def mk_handle(**kw):
+            return _sampler(cfg[0], cfg[1], cfg[2], random_state=cfg[4], like=_HandleLikelihood(), **kw)
+        for tag, label, progress in (("checkpoint written while the likelihood object is not picklable", "ckh", False),
+                                     ("checkpoint written while the progress stream is not picklable", "ckp", True)):
+            sw = mk_handle(output_dir=d, output_label=label) if not progress else _mk(cfg, output_dir=d, output_label=label)
+            real_err = sys.stderr
+            if progress:
+                sys.stderr = _CapturedStream()
+            try:
+                ob.run_quiet(lambda: sw.run(n_total=_n_total(cfg), progress=progress, save_every=1))
+            except Exception:      # the library refuses to write such a checkpoint: nothing to resume from
+                pass
+            finally:
+                sys.stderr = real_err
+            p = os.path.join(d, f"{label}_{k}.state")
+            if os.path.exists(p):
+                out.append((tag, p, (lambda: mk_handle()) if not progress else (lambda: _mk(cfg))))
+    return out, k
+
+
+def positionless_violations(configs, counter=None):
+    """property oracle on the REAL code for checkpoint files that carry no stream position: nothing can be restored from them,
+    so (A) after load_state the process-wide stream must still depend on the seed in force before the load, and (B) a run resumed
+    from them must not receive again numbers an earlier iteration received (no batch is a bit-copy of an earlier batch) and
+    must depend on the ambient stream.  A load the library refuses (exception) is not a violation."""
+    import tempfile
+    bad = []
+    for cfg in configs:
+        with tempfile.TemporaryDirectory() as d:
+            files, k = _positionless_files(cfg, d)
+            for tag, path, mk in files:
+                if counter is not None:
+                    counter(tag)
+                desc = {"config": {"clustering": cfg[0], "kernel": cfg[1], "resample": cfg[2]}, "random_state": cfg[4],
+                        "like": cfg[3], "positionless": tag}
+                after, firsts, refused = [], [], False
+                for ambient in (1, 2):
+                    np.random.seed(ambient)
+                    np.random.rand(5)
+                    s = mk()
+                    try:
+                        ob.run_quiet(lambda: s.load_state(path))
+                    except Exception:
+                        refused = True
+                        break
+                    after.append(np.random.rand(3).tolist())
+                if refused:
+                    continue
+                if after[0] == after[1]:
+                    bad.append(dict(desc, what=f"after load_state({tag}) on a sampler with random_state={cfg[4]} the global stream is the same "
+                                               f"for ambient seeds 1 and 2 (first draws {after[0]}): the load reset it to a fixed value"))
+                    continue
+                for ambient in (1, 2):
+                    np.random.seed(ambient)
+                    s = mk()
+                    try:
+                        ob.run_quiet(lambda: s.run(n_total=_n_total(cfg), progress=False, resume_state_path=path))
+                    except Exception:
+                        refused = True
+                        break
+                    u = s.state.get_history("u")
+                    copies = [(j, i) for i in range(k, len(u)) for j in range(i) if np.array_equal(u[i], u[j])]
+                    if copies:
+                        bad.append(dict(desc, what=f"run(resume_state_path={tag}) with random_state={cfg[4]}: batch {copies[0][1]} of the history is a "
+                                                   f"bit-for-bit copy of batch {copies[0][0]} (the stream was put back and replayed)"))
+                        break
+                    firsts.append(np.array(u[k], copy=True) if len(u) > k else None)
+                else:
+                    if len(firsts) == 2 and firsts[0] is not None and np.array_equal(firsts[0], firsts[1]):
+                        bad.append(dict(desc, what=f"run(resume_state_path={tag}) with random_state={cfg[4]}: the first resumed batch is the same "
+                                                   f"for ambient seeds 1 and 2 (no stream position in the file, so the stream was reset)"))
+    return bad
+
+
 def suite_resume(tier):
     """what save / run(resume_state_path=…) do to the stream, against Model.RngRun (saveState / loadState / runSampling)"""
     import tempfile
@@ -835,6 +962,15 @@ def suite_resume(tier):
             if fu[0] == fu[1]:
                 c.disagree(input=(cfg, "legacy checkpoint"), impl="resumed runs identical for ambient seeds 1 and 2",
                            model="ambient dependence preserved")
+    # files without a stored stream position, however they arise: no reset, no replay (model: loadState none)
+    pl_cfgs = [(False, "rwm", "syst", "plain", 21)] + ([(True, "tpcn", "mult", "bimodal", 22), (False, "tpcn", "mult", "half", 26)] if tier == "thorough" else [])
+    for cfg in pl_cfgs:
+        tags = []
+        for bviol in positionless_violations([cfg], counter=tags.append):
+            c.disagree(input=(cfg, bviol["positionless"]), impl=bviol["what"], model="loadState none: no seeding, no restore (C09_run_resume_legacy_on_orbit)")
+        for t in tags:
+            c.case(("positionless", cfg, t), True)
+            c.count("positionless_file: " + t.split(" (")[0][:60])
     out = drv.batch(lines)
     for ln, o, e in zip(lines, out, expect):
         if o != e:
@@ -979,6 +1115,8 @@ def search(tier, hints):
     if len(found) < 5:
         found += resume_violations([(False, "rwm", "syst", "plain", 21), (True, "tpcn", "mult", "bimodal", 22)])
     if len(found) < 5:
+        found += positionless_violations([(False, "rwm", "syst", "plain", 21), (True, "tpcn", "mult", "bimodal", 22)])
+    if len(found) < 5:
         found += rerun_violations([(False, "rwm", "syst", "plain", 21), (True, "tpcn", "mult", "plain", 23)])
     if len(found) < 5:
         found += pool_violations([(False, "rwm", "syst", "plain", 31), (True, "tpcn", "mult", "bimodal", 32)])
@@ -992,6 +1130,10 @@ def replay(obj):
         return witnesses.ALL[f["replay"]["witness"]]()
     if "op" in f:
         b = reset_violations([f["op"]])
+    elif f.get("positionless"):
+        cfg = f["config"]
+        t = (cfg["clustering"], cfg["kernel"], cfg["resample"], f.get("like", "plain"), f["random_state"])
+        b = [x for x in positionless_violations([t]) if x["positionless"] == f["positionless"]]
     elif f.get("stream") or f.get("pool") or "resume" in f or f.get("rerun"):
         cfg = f["config"]
         t = (cfg["clustering"], cfg["kernel"], cfg["resample"], f.get("like", "plain"), f["random_state"])
